@@ -8,7 +8,9 @@ import schedcommon as sc
 import schedupper
 
 import json, os
-THEOREMS = {"C03.v": json.load(open(os.path.join(os.path.dirname(__file__), "_theorems.json")))["C03"]}
+THEOREMS = {"C03.v": json.load(open(os.path.join(os.path.dirname(__file__), "_theorems.json")))["C03"],
+            # part U: the whole allocator under every interleaving (machine M2)
+            "Conc.v": ['Conc_upper_safe', 'Conc_upper_safe_with_changes']}
 
 
 def jobs(ctx, rel):
